@@ -24,36 +24,37 @@ Inductive jtree :=
 | JArr (l : list jtree) | JObj (l : list (bytes * jtree)).
 
 (* ------------------------------------------------------------------ binary64 bit patterns *)
-Definition f_sign (b : N) : bool := 2 ^ 63 <=? b.
 Definition f_exp (b : N) : N := (b / 2 ^ 52) mod 2048.
-Definition f_man (b : N) : N := b mod 2 ^ 52.
 Definition f_finite (b : N) : bool := negb (f_exp b =? 2047).
-
-(* the integer a finite double is equal to, if it is integral (-0.0 is 0) *)
-Definition f_integral (b : N) : option Z :=
-  let e := f_exp b in let m := f_man b in
-  let sg := fun (n : N) => if f_sign b then (- Z.of_N n)%Z else Z.of_N n in
-  if e =? 2047 then None
-  else if e =? 0 then (if m =? 0 then Some 0%Z else None)
-  else let mant := 2 ^ 52 + m in
-       if 1075 <=? e then Some (sg (mant * 2 ^ (e - 1075)))
-       else let k := 1075 - e in
-            if 52 <? k then None
-            else if mant mod 2 ^ k =? 0 then Some (sg (mant / 2 ^ k)) else None.
 
 Definition int64_ok (z : Z) : bool := (-9223372036854775808 <=? z)%Z && (z <=? 9223372036854775807)%Z.
 
 (* ------------------------------------------------------------------ json_encode *)
-(* encoding/json prints a float64 with strconv 'f' (or 'e' outside [1e-6, 1e21)) and the shortest
-   digits: an integral value below 1e21 is printed without '.' or exponent, so its token reads as
-   an integer.  NaN and the infinities make Marshal fail. *)
-Definition float_token (b : N) : option jtree :=
-  if negb (f_finite b) then None
-  else match f_integral b with
-       | Some z => if (Z.abs z <? 1000000000000000000000)%Z then Some (JNum true z b)
-                   else Some (JNum false 0 b)
-       | None => Some (JNum false 0 b)
-       end.
+(* utf8.ValidString (RFC 3629: no overlong forms, no surrogates, nothing above U+10FFFF) *)
+Definition cont (c : N) : bool := (128 <=? c) && (c <=? 191).
+Fixpoint utf8_valid (s : bytes) : bool :=
+  match s with
+  | [] => true
+  | b :: r =>
+    if b <? 128 then utf8_valid r
+    else if (194 <=? b) && (b <=? 223) then
+      match r with c1 :: r1 => cont c1 && utf8_valid r1 | _ => false end
+    else if (224 <=? b) && (b <=? 239) then
+      match r with
+      | c1 :: c2 :: r2 =>
+        (if b =? 224 then (160 <=? c1) && (c1 <=? 191)
+         else if b =? 237 then (128 <=? c1) && (c1 <=? 159) else cont c1)
+        && cont c2 && utf8_valid r2
+      | _ => false end
+    else if (240 <=? b) && (b <=? 244) then
+      match r with
+      | c1 :: c2 :: c3 :: r3 =>
+        (if b =? 240 then (144 <=? c1) && (c1 <=? 191)
+         else if b =? 244 then (128 <=? c1) && (c1 <=? 143) else cont c1)
+        && cont c2 && cont c3 && utf8_valid r3
+      | _ => false end
+    else false
+  end.
 
 Definition opt_map_all {A B} (f : A -> option B) : list A -> option (list B) :=
   fix go (l : list A) : option (list B) :=
@@ -62,26 +63,28 @@ Definition opt_map_all {A B} (f : A -> option B) : list A -> option (list B) :=
     | x :: r => match f x, go r with Some y, Some ys => Some (y :: ys) | _, _ => None end
     end.
 
-(* the number token of an int: its float reading is not used by the encoder; [int_bits] is filled
-   in by whoever reads the text back (see JsonRun: taken from the implementation's output) *)
+(* Marshal functions of std/serializer/json.  A float keeps a fraction or exponent in its text
+   (MarshalFloat appends ".0" to an integer-looking spelling), NaN and the infinities make Marshal
+   fail, a string or key that is not valid UTF-8 makes it fail, an ArrayValue with named slots is
+   written as an object.  [int_bits] fills in the float reading of an int's token, which the
+   encoder does not produce (JsonRun takes it from the implementation's output). *)
 Fixpoint to_json (int_bits : Z -> N) (v : pval) : option jtree :=
   match v with
   | PNull => Some JNull
   | PBool b => Some (JBool b)
   | PInt z => Some (JNum true z (int_bits z))
-  | PFloat b => float_token b
-  | PStr s => Some (JStr s)
+  | PFloat b => if f_finite b then Some (JNum false 0 b) else None
+  | PStr s => if utf8_valid s then Some (JStr s) else None
   | PList l => match opt_map_all (to_json int_bits) l with Some ts => Some (JArr ts) | None => None end
-  | PMap l => match opt_map_all (fun kv => match to_json int_bits (snd kv) with
-                                           | Some t => Some (fst kv, t) | None => None end) l with
-              | Some ts => Some (JObj ts) | None => None end
-  | PArr l => (* MarshalArray goes through ToValueList: the slot names are dropped *)
-              match opt_map_all (fun kv => to_json int_bits (snd kv)) l with
-              | Some ts => Some (JArr ts) | None => None end
+  | PMap l | PArr l =>
+      match opt_map_all (fun kv => if utf8_valid (fst kv)
+                                   then match to_json int_bits (snd kv) with
+                                        | Some t => Some (fst kv, t) | None => None end
+                                   else None) l with
+      | Some ts => Some (JObj ts) | None => None end
   end.
-(* json_encode: on a Marshal error the function returns the string "null" *)
-Definition json_encode (int_bits : Z -> N) (v : pval) : jtree :=
-  match to_json int_bits v with Some t => t | None => JNull end.
+(* json_encode: the text, or false (None) when the value cannot be encoded *)
+Definition json_encode (int_bits : Z -> N) (v : pval) : option jtree := to_json int_bits v.
 
 (* ------------------------------------------------------------------ json_decode *)
 Fixpoint bytes_eqb (a b : bytes) : bool :=
@@ -103,67 +106,54 @@ Definition dedupe {A} (l : list (bytes * A)) : list (bytes * A) :=
 
 Definition is_nil {A} (l : list A) : bool := match l with [] => true | _ => false end.
 
-(* default mode: unmarshalValue, by the first character of the raw text *)
-Fixpoint unmarshal_value (t : jtree) : option pval :=
-  match t with
-  | JNull => Some PNull
-  | JBool b => Some (PBool b)
-  | JStr s => Some (PStr s)
-  | JNum true z _ => if int64_ok z then Some (PInt z) else None   (* json.Unmarshal into int fails *)
-  | JNum false _ b => if f_finite b then Some (PFloat b) else None    (* json.Unmarshal into float64: out of range *)
-  | JArr l => match opt_map_all unmarshal_value l with Some vs => Some (PList vs) | None => None end
-  | JObj l =>
-      (* only the values the Go map kept are unmarshalled: map first (structurally), drop the
-         overwritten duplicates, then fail if a kept value failed *)
-      match opt_map_all (fun kv : bytes * option pval =>
-                           match snd kv with Some v => Some (fst kv, v) | None => None end)
-                        (dedupe (map (fun kv => (fst kv, unmarshal_value (snd kv))) l)) with
-      | Some vs => Some (PMap vs) | None => None end
-  end.
-
-(* default mode entry: `value := NewObjectValue(); value.Unmarshal(text)` — the text is unmarshalled
-   into a Go map first: only an object (or the literal null, which leaves the map empty) is accepted *)
-Definition decode_default (t : jtree) : option pval :=
-  match t with
-  | JObj _ => unmarshal_value t
-  | JNull => Some (PMap [])
-  | _ => None
-  end.
-
-(* assoc mode: json.Unmarshal into interface{} (every number is a float64), then convertGoValue:
-   `val == float64(int64(val))` decides int or float; on amd64 an out-of-range conversion yields
-   MinInt64, so only values in [-2^63, 2^63) can compare equal *)
-Definition number_of_float (b : N) : pval :=
-  match f_integral b with
-  | Some z => if (-9223372036854775808 <=? z)%Z && (z <? 9223372036854775808)%Z then PInt z else PFloat b
-  | None => PFloat b
-  end.
-Fixpoint convert_go (t : jtree) : pval :=
+(* unmarshalValue, by the first character of the raw text.  An integer literal that does not fit
+   int64 falls back to its float reading; a number outside binary64 reads as +-Inf. *)
+Fixpoint unmarshal_value (t : jtree) : pval :=
   match t with
   | JNull => PNull
   | JBool b => PBool b
   | JStr s => PStr s
-  | JNum _ _ b => number_of_float b
-  | JArr l => PList (map convert_go l)
-  | JObj l =>
-      (* &data.ArrayValue{List: [...ZVal{Name: k, Value: ...}]}: a slot whose name is "" is an
-         unnamed (positional) slot, so an object whose only key is "" becomes a plain list *)
-      let kvs := dedupe (map (fun kv => (fst kv, convert_go (snd kv))) l) in
-      if forallb (fun kv : bytes * pval => is_nil (fst kv)) kvs then PList (map snd kvs) else PArr kvs
+  | JNum true z b => if int64_ok z then PInt z else PFloat b
+  | JNum false _ b => PFloat b
+  | JArr l => PList (map unmarshal_value l)
+  | JObj l => (* orderedObject: members in source order, a repeated key keeps its first place and last value *)
+              PMap (dedupe (map (fun kv => (fst kv, unmarshal_value (snd kv))) l))
   end.
-(* every number of the text goes through strconv.ParseFloat, duplicates included: one number
-   outside binary64 fails the whole Unmarshal *)
-Fixpoint all_finite (t : jtree) : bool :=
-  match t with
-  | JNum _ _ b => f_finite b
-  | JArr l => forallb all_finite l
-  | JObj l => forallb (fun kv => all_finite (snd kv)) l
-  | _ => true
-  end.
-Definition decode_assoc (t : jtree) : option pval :=
-  if all_finite t then Some (convert_go t) else None.
 
-(* json_decode(text, assoc): the value, or None for PHP NULL-on-error.  (A literal "null" text
-   in assoc mode also gives NULL, as the value.) *)
-Definition json_decode (assoc : bool) (t : jtree) : option pval :=
-  if assoc then decode_assoc t else decode_default t.
+(* default mode entry: `value := NewObjectValue(); value.Unmarshal(text)`: only an object (or the
+   literal null, which leaves the object empty) is accepted at top level *)
+Definition decode_default (t : jtree) : option pval :=
+  match t with
+  | JObj _ => Some (unmarshal_value t)
+  | JNull => Some (PMap [])
+  | _ => None
+  end.
+
+(* assoc mode: the same decoder on any top-level value, then assocValue turns every object into an
+   ArrayValue whose slots are named by the keys; a slot named "" is an unnamed (positional) slot,
+   so an object whose only key is "" becomes a plain list *)
+Fixpoint assoc_value (v : pval) : pval :=
+  match v with
+  | PList l => PList (map assoc_value l)
+  | PMap l | PArr l =>
+      let kvs := map (fun kv => (fst kv, assoc_value (snd kv))) l in
+      if forallb (fun kv : bytes * pval => is_nil (fst kv)) kvs then PList (map snd kvs) else PArr kvs
+  | _ => v
+  end.
+Definition decode_assoc (t : jtree) : option pval := Some (assoc_value (unmarshal_value t)).
+
+(* nestingDepth: scalars 0, containers 1 + the deepest member *)
+Fixpoint nesting (v : pval) : Z :=
+  match v with
+  | PList l => (1 + fold_right (fun x m => Z.max (nesting x) m) 0 l)%Z
+  | PMap l | PArr l => (1 + fold_right (fun kv m => Z.max (nesting (snd kv)) m) 0 l)%Z
+  | _ => 0%Z
+  end.
+
+(* json_decode(text, assoc, depth): the value, or None for PHP NULL (syntax error, unsupported top
+   level, structure deeper than depth).  A literal "null" in assoc mode also gives NULL, as the value. *)
+Definition json_decode (assoc : bool) (depth : Z) (t : jtree) : option pval :=
+  match (if assoc then decode_assoc t else decode_default t) with
+  | Some v => if (depth <? nesting v)%Z then None else Some v
+  | None => None
+  end.
